@@ -64,8 +64,9 @@ def run(ctx):
         inserts = []
         for p in paths:
             for e in p.events:
-                if e.kind == "call" and method_name(e.a) in ("insert", "push", "push_front", "entry") and not e.a.startswith(MOD):
+                if e.kind == "call" and method_name(e.a) in ("insert", "push", "push_front") and not e.a.startswith(MOD):
                     inserts.append((p, e))
+                # (map.entry(key) alone files nothing: the push onto what or_insert_with(Vec::new) returns does)
         if not inserts:
             continue
         group_loops += 1
@@ -89,6 +90,17 @@ def run(ctx):
                 none = any(ev.kind == "guard" and ev.b == "None" and isinstance(ev.a, tuple) and ev.a[0] == "variantof" and isinstance(ev.a[1], tuple)
                            and ev.a[1][0] == "call" and method_name(ev.a[1][1]) in ("get_mut", "get") for ev in p.events)
                 ck.ob("C03-R1", mh.path, "new-group-keyed-by-final_key(from)-holding-that-mapping", keyok and valok and none, site=e.span)
+            elif m == "push" and "Vec" in e.a and isinstance(e.b[0], tuple) and e.b[0][0] == "call" and method_name(e.b[0][1]) in ("or_insert_with", "or_default", "or_insert"):
+                # map.entry(final_key(from)).or_insert_with(Vec::new).push(m.clone()): appended to the existing group, or
+                # to a new empty one
+                oi = e.b[0]
+                ent = oi[2][0] if oi[2] else None
+                okent = (isinstance(ent, tuple) and ent[0] == "call" and method_name(ent[1]) == "entry" and "HashMap" in ent[1] and len(ent[2]) == 2
+                         and isinstance(ent[2][1], tuple) and ent[2][1][0] == "call" and ent[2][1][1] == MOD + "final_key" and mir.strip(ent[2][1][2][0]) == T("field", elem, "from"))
+                fresh_empty = method_name(oi[1]) == "or_default" or (len(oi[2]) == 2 and ((isinstance(oi[2][1], tuple) and oi[2][1][0] == "call" and method_name(oi[2][1][1]) == "new" and not oi[2][1][2])
+                                                                                      or "Vec" in show(oi[2][1]) and "new" in show(oi[2][1])))
+                ck.ob("C03-R1", mh.path, "group-found-or-created-empty-by-final_key(from),then-appended-with-push(clone)", okent and fresh_empty and e.b[1] == T("clone", elem), site=e.span,
+                      detail=None if (okent and fresh_empty) else show(oi)[:120])
             elif m == "push" and "Vec" in e.a:
                 recv = e.b[0]
                 okrecv = (isinstance(recv, tuple) and recv[0] == "field" and isinstance(recv[1], tuple) and recv[1][0] == "variant" and recv[1][2] == "Some"
@@ -135,7 +147,38 @@ def run(ctx):
     sup = ctx.body(MOD + "is_supported")
     tr, pr, ab, nk = (T("param", i, sup.dbg.get(i, "")) for i in (1, 2, 3, 4))
     loops = list(sup.loops())
-    ck.ob("C03-T1", sup.path, "single-loop-over-the-trigger", len(loops) == 1)
+    allform = None
+    if not loops:
+        rets_ = [p for p in mir.walk_function(sup) if p.outcome[0] == "return"]
+        if len(rets_) == 1 and isinstance(rets_[0].outcome[1], tuple) and rets_[0].outcome[1][0] == "call" and method_name(rets_[0].outcome[1][1]) == "all":
+            allform = tables.closure_scan(ctx.body, rets_[0].outcome[1])
+    ck.ob("C03-T1", sup.path, "single-loop-over-the-trigger", len(loops) == 1 or (allform is not None and not allform.problems),
+          detail=None if allform is None else str(allform.problems[:2]))
+    if allform is not None and not allform.problems:
+        # trigger.iter().all(|k| P(k)): every key examined, true iff P holds for all of them
+        ck.ob("C03-T1", sup.path, "every-trigger-key-is-examined", allform.iter_term == T("iter", tr, "fwd") and not allform.enum)
+        x = T("elem", allform.iter_term, None)
+        nrows = 0
+        for got, plist in ((True, allform.set_paths), (False, allform.cont_paths)):
+            for gs in plist:
+                val = {}
+                unk = []
+                for a, v in gs:
+                    if isinstance(a, tuple) and a[0] == "variantof":
+                        continue
+                    if isinstance(a, tuple) and a[0] == "in" and mir.strip(a[1]) == x and mir.strip(a[2]) == pr:
+                        val["held"] = v
+                    elif isinstance(a, tuple) and a[0] == "in" and mir.strip(a[1]) == x and mir.strip(a[2]) == ab:
+                        val["absorbed"] = v
+                    elif isinstance(a, tuple) and a[0] == "eq" and {mir.strip(a[1]), mir.strip(a[2])} == {x, nk}:
+                        val["is_new"] = v
+                    else:
+                        unk.append(show(a)[:50])
+                want = tv_or(tv_and(val.get("held"), tv_not(val.get("absorbed"))), val.get("is_new"))
+                nrows += 1
+                ck.ob("C03-T1", sup.path, "row:%s" % ",".join("%s=%s" % (kk, "T" if vv else "F") for kk, vv in sorted(val.items())),
+                      not unk and want is not None and got == want, detail="continue=%s, specification (held&!absorbed)|is_new=%s %s" % (got, want, unk or ""))
+        ck.floor("C03-T1", "table-rows", nrows, 2)
     if len(loops) == 1:
         il = ktloops.index_loop(sup, loops[0], full=True)
         ck.ob("C03-T1", sup.path, "every-trigger-key-is-examined", il.kind == "for-elements" and il.list_term == tr and bool(il.exh_paths))
